@@ -26,6 +26,12 @@ CHECKS = {
  "C20": ("fault_enumeration", "fault injection through the public API (fault-injecting Signer/Verifier/io.Reader implementations) + inspection of return values, message state and emitted bytes after every fault vector",
          "Every assignment of {ok, error, error-with-bytes, empty signature} to each key call of all signing entry points (5^n vectors for COSE_Sign n<=4), of {ok, ErrVerification, other error} to each verifier call, and the 7 real built-in signers under failing/short/one-byte entropy readers are enumerated; an error must be returned, no bytes returned, nothing stored in the failing slot, nothing half-signed serialisable, no empty signature emitted, verifier errors propagated.",
          "trusted: refcbor parse of emitted bytes; Go 1.23 stdlib consults the supplied entropy reader (measured: the monitor records reader calls)", "DESIGN.md section 4 C20"),
+ "C05": ("exploration", "runtime monitor: accept/refuse result of the 7 decoders on structure-aware mutants; one-directional differential oracle accepted => well-formed per an independent reference grammar; cross-kind refusal",
+         "Valid encodings of all shapes (reference encoder, all encoder choices, nested countersignatures) receive single and double structural faults at every kind of CBOR tree position, targeted splices (IV across buckets, crit, null/[]/[null] countersignatures, duplicate keys re-spelt with another width, trailing bytes inside the protected bstr) and byte havoc; every mutant the library accepts must satisfy the reference grammar; no decoder may accept another kind's valid encoding.",
+         "trusted: refcbor/refcose WellFormed (appendix A.1/A.2), deliberately no stricter than the property text: tag 55799 is transparent, duplicate detection excludes NaN keys, the stand-alone unprotected-bucket decoder is judged with tags looked through", "DESIGN.md section 4 C05"),
+ "C06": ("exploration", "runtime monitor: liveness of isolated child processes (recover around each call, cursor file, stall watchdog with solo re-confirmation) over hostile inputs to all 9 decoding entry points and their follow-up operations",
+         "About 250k seeded inputs (structural/byte mutants of valid messages, the COSE_Key mutation grid, random bytes, regression inputs) go to every decoding entry point in child processes; every accepted value is re-encoded, verified, countersigned, its nested countersignatures exercised, keys converted and used. Recovered panics, runtime fatal errors and confirmed stalls are violations; the watchdog alone never decides.",
+         "trusted: Go runtime crash reporting; a stall counts only if it repeats alone for 120 s", "DESIGN.md section 4 C06"),
 }
 REASON_NOT_BUILT = "check not built yet in this round; no claim is made (see DESIGN.md build order)"
 
